@@ -16,13 +16,43 @@ V = z3.DeclareSort("V")
 I, B, R, S = z3.IntSort(), z3.BoolSort(), z3.RealSort(), z3.StringSort()
 
 K_NONE, K_BOOL, K_INT, K_FLOAT, K_STR, K_LIST, K_DICT, K_OBJ = range(8)
+_CTOR_KIND = {"mk_str": K_STR, "mk_int": K_INT, "mk_bool": K_BOOL, "mk_float": K_FLOAT, "mk_none": K_NONE}
 KIND_NAMES = ["none", "bool", "int", "float", "str", "list", "dict", "obj"]
 
-kind = z3.Function("kind", V, I)
-bval = z3.Function("bval", V, B)
-ival = z3.Function("ival", V, I)
-fval = z3.Function("fval", V, R)
-sval = z3.Function("sval", V, S)
+_kind = z3.Function("kind", V, I)
+_bval = z3.Function("bval", V, B)
+_ival = z3.Function("ival", V, I)
+_fval = z3.Function("fval", V, R)
+_sval = z3.Function("sval", V, S)
+
+
+def _unwrap(t, ctor):
+    return t.arg(0) if (z3.is_app(t) and t.num_args() == 1 and t.decl().name() == ctor) else None
+
+
+def kind(t):
+    k = _CTOR_KIND.get(t.decl().name()) if z3.is_app(t) else None
+    return z3.IntVal(k) if k is not None else _kind(t)
+
+
+def bval(t):
+    a = _unwrap(t, "mk_bool")
+    return a if a is not None else _bval(t)
+
+
+def ival(t):
+    a = _unwrap(t, "mk_int")
+    return a if a is not None else _ival(t)
+
+
+def fval(t):
+    a = _unwrap(t, "mk_float")
+    return a if a is not None else _fval(t)
+
+
+def sval(t):
+    a = _unwrap(t, "mk_str")
+    return a if a is not None else _sval(t)
 llen = z3.Function("llen", V, I)
 lget = z3.Function("lget", V, I, V)
 dlen = z3.Function("dlen", V, I)
@@ -54,9 +84,6 @@ _counter = itertools.count()
 
 def fresh(prefix, sort=V):
     return z3.Const("%s!%d" % (prefix, next(_counter)), sort)
-
-
-_CTOR_KIND = {"mk_str": K_STR, "mk_int": K_INT, "mk_bool": K_BOOL, "mk_float": K_FLOAT, "mk_none": K_NONE}
 
 
 def static_kind(t):
@@ -380,6 +407,16 @@ def check_sat(formulas, timeout_ms=10000, seed=0, use_cvc5=True):
         if r2 is not None:
             return Result(r2, None, "cvc5", dt + 0.0, reason="z3: " + reason)
     return Result("unknown", None, "z3", dt, reason=reason)
+
+
+def to_smt2(formulas):
+    ax = all_axioms_for(formulas)
+    s = z3.Solver()
+    for a in ax:
+        s.add(a)
+    for f in formulas:
+        s.add(f)
+    return s.to_smt2()
 
 
 def _cvc5_check(smt2, timeout_ms):
